@@ -1,5 +1,15 @@
 package vc
 
+import (
+	"fmt"
+	"go/types"
+	"sort"
+	"strings"
+
+	"golang.org/x/tools/go/ssa"
+	"golang.org/x/tools/go/ssa/ssautil"
+)
+
 // RunStatic runs the structural (non-SMT) obligations configured for a property.
 func (g *Gen) RunStatic(o CheckOpts, spec *PropSpec) []StaticResult {
 	var out []StaticResult
@@ -14,3 +24,276 @@ func (g *Gen) RunStatic(o CheckOpts, spec *PropSpec) []StaticResult {
 }
 
 var staticChecks = map[string]func(g *Gen, o CheckOpts) []StaticResult{}
+
+// GlobalUse describes how the repo's functions use one package-level variable.
+type GlobalUse struct {
+	Name     string // pkg.name
+	Type     string
+	Mutable  bool     // its type can hold state that changes after initialisation (pointer, map, slice, struct, interface to repo type)
+	Stores   []string // functions (other than init) that assign the variable itself
+	Mutators []string // functions that write through the value read from it (map update, element/field store, delete, append target) or pass it to a call
+	Readers  []string // functions that read it
+}
+
+func isInit(fn *ssa.Function) bool {
+	return fn.Name() == "init" || strings.HasPrefix(fn.Name(), "init#") || fn.Synthetic == "package initializer"
+}
+
+// GlobalUses computes, for every package-level variable of the repository packages, who reads, assigns and mutates it.
+func (g *Gen) GlobalUses() map[string]*GlobalUse {
+	out := map[string]*GlobalUse{}
+	get := func(gl *ssa.Global) *GlobalUse {
+		k := gl.Pkg.Pkg.Name() + "." + gl.Name()
+		if u, ok := out[k]; ok {
+			return u
+		}
+		et := gl.Type().Underlying().(*types.Pointer).Elem()
+		u := &GlobalUse{Name: k, Type: types.TypeString(et, shortQual)}
+		switch t := et.Underlying().(type) {
+		case *types.Pointer, *types.Map, *types.Slice, *types.Struct, *types.Chan:
+			u.Mutable = true
+		case *types.Interface:
+			_ = t
+			u.Mutable = true
+		}
+		if nt, ok := et.(*types.Pointer); ok {
+			if n, ok := nt.Elem().(*types.Named); ok && n.Obj().Pkg() != nil && n.Obj().Pkg().Path() == "regexp" {
+				u.Mutable = false // *regexp.Regexp is immutable after compilation
+			}
+		}
+		if isErrorType(et) {
+			u.Mutable = false
+		}
+		out[k] = u
+		return u
+	}
+	add := func(l *[]string, s string) {
+		for _, x := range *l {
+			if x == s {
+				return
+			}
+		}
+		*l = append(*l, s)
+	}
+	// derived: values that (may) alias memory reachable from a global's value
+	for fn := range ssautil.AllFunctions(g.Prog) {
+		if !(inRepo(fn) || (fn.Parent() != nil && inRepo(fn.Parent()))) {
+			continue
+		}
+		key := FuncKey(fn)
+		if fn.Parent() != nil {
+			key = FuncKey(fn.Parent()) + "$closure"
+		}
+		derived := map[ssa.Value]*ssa.Global{}
+		for iter := 0; iter < 4; iter++ {
+			for _, b := range fn.Blocks {
+				for _, in := range b.Instrs {
+					switch in := in.(type) {
+					case *ssa.UnOp:
+						if gl, ok := in.X.(*ssa.Global); ok && inRepoPkg(gl.Pkg) {
+							derived[in] = gl
+							if !isInit(fn) {
+								add(&get(gl).Readers, key)
+							}
+						} else if d, ok := derived[in.X]; ok {
+							derived[in] = d
+						}
+					case *ssa.FieldAddr:
+						if gl, ok := in.X.(*ssa.Global); ok && inRepoPkg(gl.Pkg) {
+							derived[in] = gl
+						} else if d, ok := derived[in.X]; ok {
+							derived[in] = d
+						}
+					case *ssa.IndexAddr:
+						if d, ok := derived[in.X]; ok {
+							derived[in] = d
+						}
+					case *ssa.Lookup:
+						if d, ok := derived[in.X]; ok {
+							derived[in] = d
+						}
+					case *ssa.Extract:
+						if d, ok := derived[in.Tuple]; ok {
+							derived[in] = d
+						}
+					case *ssa.Phi:
+						for _, e := range in.Edges {
+							if d, ok := derived[e]; ok {
+								derived[in] = d
+							}
+						}
+					case *ssa.ChangeType:
+						if d, ok := derived[in.X]; ok {
+							derived[in] = d
+						}
+					case *ssa.MakeInterface:
+						if d, ok := derived[in.X]; ok {
+							derived[in] = d
+						}
+					}
+				}
+			}
+		}
+		if isInit(fn) {
+			continue
+		}
+		for _, b := range fn.Blocks {
+			for _, in := range b.Instrs {
+				switch in := in.(type) {
+				case *ssa.Store:
+					if gl, ok := in.Addr.(*ssa.Global); ok && inRepoPkg(gl.Pkg) {
+						add(&get(gl).Stores, key)
+					} else if d, ok := derived[in.Addr]; ok {
+						add(&get(d).Mutators, key)
+					}
+				case *ssa.MapUpdate:
+					if d, ok := derived[in.Map]; ok {
+						add(&get(d).Mutators, key)
+					}
+				case ssa.CallInstruction:
+					cm := in.Common()
+					if bi, ok := cm.Value.(*ssa.Builtin); ok {
+						if bi.Name() == "delete" || bi.Name() == "append" || bi.Name() == "copy" {
+							if d, ok := derived[cm.Args[0]]; ok {
+								add(&get(d).Mutators, key)
+							}
+						}
+						continue
+					}
+					// passing global-reachable mutable memory to a callee: the callee may write it
+					args := cm.Args
+					if cm.IsInvoke() {
+						args = append([]ssa.Value{cm.Value}, args...)
+					}
+					for _, a := range args {
+						d, ok := derived[a]
+						if !ok {
+							continue
+						}
+						if !get(d).Mutable {
+							continue
+						}
+						switch a.Type().Underlying().(type) {
+						case *types.Pointer, *types.Map, *types.Slice, *types.Interface:
+							callee := "dynamic call"
+							if sc := cm.StaticCallee(); sc != nil {
+								callee = sc.String()
+								if g.calleeKeepsArgsIntact(sc) {
+									continue
+								}
+							} else if cm.IsInvoke() {
+								callee = cm.Method.FullName()
+							}
+							add(&get(d).Mutators, key+" (passes it to "+callee+")")
+						}
+					}
+				}
+			}
+		}
+	}
+	for _, u := range out {
+		sort.Strings(u.Stores)
+		sort.Strings(u.Mutators)
+		sort.Strings(u.Readers)
+	}
+	return out
+}
+
+func inRepoPkg(p *ssa.Package) bool {
+	return p != nil && strings.HasPrefix(p.Pkg.Path(), RepoModule)
+}
+
+// calleeKeepsArgsIntact: callees known not to write through their arguments (read-only library calls,
+// and repo functions whose inferred write set is empty).
+func (g *Gen) calleeKeepsArgsIntact(fn *ssa.Function) bool {
+	if inRepo(fn) {
+		ws := g.WriteSetOf(fn)
+		return !ws.Top && len(ws.Names) == 0 && len(ws.Globals) == 0
+	}
+	s := fn.String()
+	for _, p := range []string{"fmt.", "strings.", "(*regexp.Regexp).", "errors.", "strconv.", "(*sync.RWMutex).", "(*sync.Mutex).", "log.", "(*log.Logger).", "io.WriteString", "os.", "(*os.File)."} {
+		if strings.HasPrefix(s, p) {
+			return true
+		}
+	}
+	return false
+}
+
+// DumpGlobals prints the global-variable usage table (govc globals).
+func (g *Gen) DumpGlobals() {
+	us := g.GlobalUses()
+	var ks []string
+	for k := range us {
+		ks = append(ks, k)
+	}
+	sort.Strings(ks)
+	for _, k := range ks {
+		u := us[k]
+		fmt.Printf("%s : %s mutable=%v\n  stores=%v\n  mutators=%v\n  readers=%d %v\n", u.Name, u.Type, u.Mutable, u.Stores, u.Mutators, len(u.Readers), firstN(u.Readers, 6))
+	}
+}
+
+func firstN(s []string, n int) []string {
+	if len(s) > n {
+		return append(append([]string{}, s[:n]...), "...")
+	}
+	return s
+}
+
+// allowedMutableGlobals: package-level variables that may hold mutable state, with the reason.
+var allowedMutableGlobals = map[string]string{
+	"document.defaultLogger": "logging configuration (level, writer): read by every operation for logging only; no document content or accessor result depends on it",
+}
+
+func init() {
+	staticChecks["shared-state"] = staticSharedState
+}
+
+// staticSharedState decides the sequential half of C07/C17 noninterference: no package-level variable of the
+// repository packages holds state that changes after initialisation (so no operation on one document,
+// template or style registry can influence another through a global), the logger excepted.
+func staticSharedState(g *Gen, o CheckOpts) []StaticResult {
+	us := g.GlobalUses()
+	var ks []string
+	for k := range us {
+		ks = append(ks, k)
+	}
+	sort.Strings(ks)
+	var bad, lines []string
+	for _, k := range ks {
+		u := us[k]
+		state := "constant after init"
+		switch {
+		case len(u.Stores) == 0 && len(u.Mutators) == 0:
+		case allowedMutableGlobals[k] != "":
+			state = "mutable, allowed: " + allowedMutableGlobals[k]
+			// the exception must stay what it is: only logger.go may touch it
+			for _, m := range append(append([]string{}, u.Stores...), u.Mutators...) {
+				fn := g.FuncByKey(strings.SplitN(m, " (", 2)[0])
+				if fn == nil || !strings.HasSuffix(fnFile(g, fn), "/logger.go") {
+					bad = append(bad, fmt.Sprintf("%s is written outside logger.go by %s", k, m))
+				}
+			}
+		default:
+			state = "MUTABLE SHARED STATE"
+			bad = append(bad, fmt.Sprintf("%s (%s): assigned by %v, mutated by %v, read by %d functions e.g. %v", k, u.Type, u.Stores, u.Mutators, len(u.Readers), firstN(u.Readers, 4)))
+		}
+		lines = append(lines, fmt.Sprintf("%s : %s — %s (readers %d)", k, u.Type, state, len(u.Readers)))
+	}
+	res := StaticResult{Name: "static:shared-state:no-mutable-package-variable", OK: len(bad) == 0,
+		Desc:   fmt.Sprintf("every package-level variable of pkg/document, pkg/style, pkg/markdown (%d found) is never assigned outside init and never written through, except the logger", len(ks)),
+		Detail: strings.Join(lines, "\n")}
+	if len(bad) > 0 {
+		res.Detail = "VIOLATING VARIABLES:\n" + strings.Join(bad, "\n") + "\n\nALL:\n" + res.Detail
+	}
+	out := []StaticResult{res}
+	// one obligation per variable as well, so that evidence lists them and a regression names the variable
+	for _, k := range ks {
+		u := us[k]
+		ok := (len(u.Stores) == 0 && len(u.Mutators) == 0) || allowedMutableGlobals[k] != ""
+		out = append(out, StaticResult{Name: "static:shared-state:" + k, OK: ok,
+			Desc:   fmt.Sprintf("%s (%s) holds no state that changes after initialisation", k, u.Type),
+			Detail: fmt.Sprintf("assigned by %v\nwritten through by %v\nread by %v", u.Stores, u.Mutators, u.Readers)})
+	}
+	return out
+}
